@@ -179,9 +179,11 @@ def axiom_audit(prop_mod, names):
     """#print axioms for every theorem; returns (ok, {name: [axioms]}, log)"""
     d = os.path.join(LEAN, '.audit')
     os.makedirs(d, exist_ok=True)
-    f = os.path.join(d, prop_mod.replace('.', '_') + '_%d.lean' % os.getpid())
+    mods = list(prop_mod) if isinstance(prop_mod, (list, tuple)) else [prop_mod]
+    f = os.path.join(d, mods[-1].replace('.', '_') + '_%d.lean' % os.getpid())
     with open(f, 'w') as fh:
-        fh.write('import %s\n' % prop_mod)
+        for m_ in mods:
+            fh.write('import %s\n' % m_)
         for n in names:
             fh.write('#print axioms %s\n' % n)
     try:
@@ -428,7 +430,7 @@ def run_property(spec, argv=None):
             broken.append(('audit', 'forbidden tokens', '\n'.join(hits)))
         if ok:
             try:
-                aok, res, bad, aout = axiom_audit(prop_mods[0] if len(prop_mods) == 1 else prop_mods[-1], names)
+                aok, res, bad, aout = axiom_audit(list(prop_mods) + list(getattr(spec, 'EXTRA_THEOREM_MODULES', [])), names)
             except subprocess.TimeoutExpired:
                 print('INFRA-ERROR: axiom audit timed out')
                 return 2
